@@ -133,6 +133,9 @@ func c10Drivers() []*icCfg {
 			Post: []icOp{{Kind: "est"}, G(1), S(3), {Kind: "len"}, W}},
 		{Name: "D5b-hybrid-2workers", O: hOpts{MaxSize: 1, ChanSize: 2, BufSize: 2}, Hy: &hyIcCfg{Workers: 2, Prob: 1}, Scripts: [][]icOp{{S(1), S(2)}, {G(1)}, {C}},
 			Post: []icOp{{Kind: "est"}, G(1), S(3), {Kind: "len"}, W}},
+		// Close while the policy goroutine still has an eviction / an expiry to perform (it needs the shard lock then)
+		{Name: "D7-close-vs-eviction", O: hOpts{MaxSize: 1, ChanSize: 2, BufSize: 2}, Pre: []icOp{S(1)}, Scripts: [][]icOp{{S(2), S(4)}, {C}}, Post: epi},
+		{Name: "D8-close-vs-expiry", O: q2, Pre: []icOp{{Kind: "set", K: 1, Cost: 1, TTL: sec}}, Scripts: [][]icOp{{{Kind: "tick", Arg: 2 * sec}, G(1)}, {C}}, Post: epi},
 		{Name: "D6-close-close", O: q2, Pre: []icOp{S(1)}, Scripts: [][]icOp{{C}, {C}, {S(2)}}, Post: epi},
 	}
 }
